@@ -74,7 +74,7 @@ def gen(c):
     # ---- encryption through every interface, plaintext lengths 1..255 ----
     lens = range(1, 256) if not c.quick else sorted(set([1, 2, 15, 16, 17, 31, 32, 33, 63, 64, 65, 127, 128, 200, 254, 255] + [rng.randrange(1, 256) for _ in range(10)]))
     for ln in lens:
-        for iface, extra in (("der", {}), ("do", {}), ("ctx", {"chunks": "%d" % rng.randrange(0, ln + 1)}), ("fixlen", {"psize": 68}), ("fixlen", {"psize": 69}), ("fixlen", {"psize": 70})):
+        for iface, extra in (("der", {}), ("do", {}), ("ctx", dict({"chunks": "%d" % rng.randrange(0, ln + 1)}, **({"prejunk": rb(1 + ln % 40)} if ln % 2 else {}))), ("fixlen", {"psize": 68}), ("fixlen", {"psize": 69}), ("fixlen", {"psize": 70})):
             if c.quick and iface == "fixlen" and ln % 3 != extra["psize"] % 3:
                 continue
             add(dict({"op": "encrypt", "iface": iface, "pub": pub, "msg": rb(ln), "seed": 500 + len(lines)}, **extra),
@@ -244,7 +244,8 @@ def body():
             c1s.append(C1)
             # the library's own ciphertext must decrypt through every decryption interface (judged like any other ciphertext)
             for iface in ("der", "ctx", "do")[: (1 if c.quick and len(msg) % 4 else 3)]:
-                extra_lines.append({"op": "decrypt", "iface": iface, "d": CL.hx(i2b(d)), "ct": CL.hx(ct), "chunks": "%d" % (len(ct) // 2), "id": 100000 + len(extra_lines)})
+                extra_lines.append(dict({"op": "decrypt", "iface": iface, "d": CL.hx(i2b(d)), "ct": CL.hx(ct), "chunks": "%d" % (len(ct) // 2), "id": 100000 + len(extra_lines)},
+                                        **({"prejunk": CL.hx(ct[:7])} if iface == "ctx" and len(extra_lines) % 2 else {})))
                 extra_cases.append(decrypt_case(d, ct, "roundtrip:%s:%s" % (iface, case["what"]), iface))
         else:
             j = {k: v for k, v in case.items() if k != "what"}
